@@ -278,6 +278,10 @@ def pattern(draw, sub=False):
         return txt
 
     kind = draw(st.integers(0, 9))
+    if kind == 9 and draw(st.booleans()):
+        # malformed replacement fields: rejected like any other invalid pattern
+        return draw(st.sampled_from(("{mother -> {daughters}", "{mother} -> daughters}", "{mother} -> {daughters", "{mother} } {daughters}",
+                                     "{mother:{} {daughters}"))), False
     order = draw(st.permutations(["mother", "daughters"]))
     lits = [draw(st.sampled_from(("", " ", " -> ", " => ", " (", ")", "[", "]", "{{", "}}", " {{x}} ", "|", " to "))) for _ in range(4)]
     text = lits[0]
